@@ -16,7 +16,9 @@
        UNIT, NIL/CONS, SIZE, ADD/SUB/MUL/NEG/ABS/ISNAT/INT/EDIV on int/nat, COMPARE on every comparable type of the
        fragment, EQ..GE, AND/OR/XOR/NOT on bool, CONCAT on strings, FAILWITH; stage 2: bytes, SLICE, bitwise logic and shifts, PAIR n/UNPAIR n/GET k/UPDATE k, mutez and timestamp
        arithmetic, SUB_MUTEZ, the environment instructions AMOUNT BALANCE SENDER SOURCE SELF_ADDRESS NOW LEVEL CHAIN_ID
-       for every environment with amounts in the mutez range),
+       for every environment with amounts in the mutez range; LAMBDA, EXEC, APPLY (first-class lambdas: closures, lambdas
+       stored in data structures, nested EXEC); NOT yet: sets/maps (modelled and covered by the correspondence only),
+       LAMBDA_REC, PACK/hashes, tickets, operations/contracts),
      - programs accepted by [typecheck_nr] (Michelson typing + every MAP body returns the element type it got),
      and it is stronger than asked: it holds for every fuel (OutOfFuel on one side iff on the other) and for every
      hidden prefix. Without the MAP restriction the statement is FALSE for pytezos ([C01_simulation_refuted],
@@ -97,8 +99,7 @@ Theorem C01_session_step_partial : forall e, env_okb e = true -> forall fuel cod
 Proof. exact c01_execute. Qed.
 Print Assumptions C01_session_step_partial.
 
-(* EXEC (outside [in_fragment] as an instruction of programs, but proved for every lambda whose body is in the
-   fragment): pytezos runs the body on a fresh one-element stack, checks the classes of argument and result and pushes
+(* EXEC, spelled out (it is also part of C01_simulation_partial): pytezos runs the body on a fresh one-element stack, checks the classes of argument and result and pushes
    the result — with the same outcome as the reference rule, FAILWITH and run-time errors inside the body included *)
 Theorem C01_exec_partial : forall e, env_okb e = true -> forall fuel a b body param rest hid,
   in_fragment body -> typecheck_nr body [a] = Some (Typed [b]) -> typed param a ->
